@@ -252,3 +252,31 @@ func ZzC09Pair(perm int, before2 func()) (*JSchema, *JSchema, []string) {
 	}
 	return s1, s2, []string{ts[0].name, ts[1].name, ts[2].name}
 }
+
+// VerifC09_BrokenAllOfTypes: several registered types whose allOf is broken
+// (non-object or missing parent), none of them reached from the root: which
+// one is reported, with which code, must not depend on map iteration order or
+// on the order of the AddType calls.
+func VerifC09_BrokenAllOfTypes() {
+	zzverif.Expect("rejected")
+	bodies := []string{"{ // {allOf: \"@n\"}\n}", "{ // {allOf: \"@s\"}\n}", "{ // {allOf: \"@missing\"}\n}", "{ // {allOf: [\"@o\", \"@n\"]}\n}"}
+	names := []string{"@p", "@q", "@r"}
+	var ts []dType
+	for i, n := range names {
+		ts = append(ts, dType{n, bodies[zzverif.IntRange("body", 0, len(bodies)-1)]})
+		_ = i
+	}
+	ts = append(ts, dType{"@n", `1`}, dType{"@s", `"s"`}, dType{"@o", `{"k": 1}`})
+	perms := [][]int{{0, 1, 2, 3, 4, 5}, {2, 1, 0, 3, 4, 5}, {5, 4, 3, 2, 1, 0}, {1, 2, 0, 5, 3, 4}}
+	order := zzverif.IntRange("order", 0, 3)
+	perm := perms[zzverif.IntRange("perm", 0, 3)]
+	zzverif.SetMapOrder(0)
+	o1 := dObserve(dBuild(`1`, ts, perms[0]))
+	zzverif.SetMapOrder(order)
+	o2 := dObserve(dBuild(`1`, ts, perm))
+	zzverif.SetMapOrder(0)
+	zzverif.Assert(dSame(o1, o2), "same diagnostic for every map iteration order and registration order")
+	if o1.code != 0 {
+		zzverif.Reach("rejected")
+	}
+}
